@@ -64,3 +64,24 @@ Theorem C20_code_wiring_no_plaintext_listener : ltac:(let t := type of @EquivWir
 Proof. exact (@EquivWiring.no_plaintext_listener). Qed.
 Print Assumptions C20_code_wiring_no_plaintext_listener.
 
+(* ---- tie to the code: server/tls_protocol.py - the only bytes the PyOpenSSL layer writes to the TCP transport are those of OpenSSL's outgoing BIO (the action alphabet of the pump has no raw write); a handshake timeout closes, nothing else (coq/Equiv/EquivTls.v): re-checked here against the definitions regenerated from /repo's working tree; see DESIGN.md 11.8 ---- *)
+From NV Require Equiv.EquivTls.
+Theorem C20_code_connection_made_tie : ltac:(let t := type of @EquivTls.connection_made_tie in exact t).
+Proof. exact (@EquivTls.connection_made_tie). Qed.
+Print Assumptions C20_code_connection_made_tie.
+
+Theorem C20_code_tstep_tie : ltac:(let t := type of @EquivTls.tstep_tie in exact t).
+Proof. exact (@EquivTls.tstep_tie). Qed.
+Print Assumptions C20_code_tstep_tie.
+
+Theorem C20_code_trun_tie : ltac:(let t := type of @EquivTls.trun_tie in exact t).
+Proof. exact (@EquivTls.trun_tie). Qed.
+Print Assumptions C20_code_trun_tie.
+
+Theorem C20_code_flush_outgoing_tie : ltac:(let t := type of @EquivTls.flush_outgoing_tie in exact t).
+Proof. exact (@EquivTls.flush_outgoing_tie). Qed.
+Print Assumptions C20_code_flush_outgoing_tie.
+
+Theorem C20_code_handshake_timeout_value : ltac:(let t := type of @EquivTls.handshake_timeout_value in exact t).
+Proof. exact (@EquivTls.handshake_timeout_value). Qed.
+Print Assumptions C20_code_handshake_timeout_value.
